@@ -14,6 +14,7 @@ import (
 	"path/filepath"
 	"sort"
 	"strings"
+	"sync"
 	"time"
 
 	"verifharness/internal/batch"
@@ -50,6 +51,8 @@ func main() {
 		os.Exit(run(*repo, *dir, *seed, *tier, os.Args[1] == "known", *only, *keep, *nprog))
 	case "replay":
 		os.Exit(replay(*repo, *dir, *file))
+	case "worker":
+		workerMain()
 	default:
 		fmt.Fprintln(os.Stderr, "unknown subcommand", os.Args[1])
 		os.Exit(2)
@@ -68,6 +71,7 @@ type violation struct {
 	Observed []string
 	Shrunk   bool
 	Tries    int
+	orig     *subject
 }
 
 type runner struct {
@@ -78,11 +82,20 @@ type runner struct {
 	out   *vl.Out
 	chk   *checker
 	viols []*violation
+	pending []*violation
 	byKey map[string]*violation
 	// findings already explained by a violation whose key names options or a backend: head -> violations
 	explained map[string][]*violation
 	shrinkBudget time.Duration
 	shrinkSpent  time.Duration
+	mu           sync.Mutex
+	groups       []failing // failing units of the main stream, handled after the known stream
+}
+
+type failing struct {
+	s      *subject
+	f      finding
+	origin string
 }
 
 func (r *runner) eval(s *subject) (finding, *result) {
@@ -95,29 +108,16 @@ func (r *runner) minimise(s *subject, target finding, maxTries int, limit time.D
 	t0 := time.Now()
 	sh := &shrinker{maxTries: maxTries, deadline: time.Now().Add(limit)}
 	sh.fails = func(c *subject) bool {
-		f, res := r.eval(c)
+		res := r.chk.runFast(c.raw())
+		f := judge(res.Exit, res.Stderr, res.ParseErrs, res.TypeErrs)
 		r.chk.cleanup(res)
 		return f.head() == target.head()
 	}
 	min := sh.run(s)
+	r.mu.Lock()
 	r.shrinkSpent += time.Since(t0)
+	r.mu.Unlock()
 	return min, sh.kept, sh.tries
-}
-
-// report registers a violation (deduplicated by key).
-func (r *runner) report(v *violation) {
-	if old, ok := r.byKey[v.Key]; ok {
-		if old.Known == "" && v.Known != "" {
-			old.Known = v.Known
-		}
-		r.out.Count("violation.duplicate-key")
-		return
-	}
-	r.byKey[v.Key] = v
-	r.viols = append(r.viols, v)
-	if strings.Contains(v.Key, "|opt=") || strings.Contains(v.Key, "|backend=") {
-		r.explained[v.Head] = append(r.explained[v.Head], v)
-	}
 }
 
 // explainedBy: a failing unit whose finding head equals that of an already reported violation whose minimal
@@ -144,8 +144,8 @@ func (r *runner) explainedBy(head, backend string, opts []string) *violation {
 	return nil
 }
 
-// handle takes a failing subject (finding f from the REAL toolchain or the in-process check), minimises it,
-// confirms the minimal input with the real toolchain and reports it.
+// handle takes a failing subject (finding f from the REAL toolchain or the in-process check), minimises it and
+// queues the minimal input for confirmation by the real toolchain (finalize).
 func (r *runner) handle(s *subject, f finding, origin, known string) {
 	if !f.violation() {
 		return
@@ -155,64 +155,156 @@ func (r *runner) handle(s *subject, f finding, origin, known string) {
 		be = "go"
 	}
 	if known == "" {
-		if v := r.explainedBy(f.head(), be, s.Options); v != nil {
-			r.out.Count("finding.attributed." + v.Key)
+		r.mu.Lock()
+		v := r.explainedBy(f.head(), be, s.Options)
+		r.mu.Unlock()
+		if v != nil {
+			r.count("finding.attributed." + v.Key)
 			return
 		}
 	}
-	v := &violation{Head: f.head(), Known: known, Origin: origin, Finding: f}
-	// is the finding reproducible in the in-process pipeline at all?
-	f0, res0 := r.eval(s)
+	v := &violation{Head: f.head(), Known: known, Origin: origin, Finding: f, Subject: s, orig: s, Observed: []string{f.Detail}}
+	// is the finding reproducible with the in-process generator at all?
+	res0 := r.chk.runFast(s.raw())
+	f0 := judge(res0.Exit, res0.Stderr, res0.ParseErrs, res0.TypeErrs)
 	r.chk.cleanup(res0)
 	if f0.head() != f.head() {
-		// the in-process type checker disagrees with the toolchain: report unshrunk
-		r.out.Count("shrink.not-reproduced-in-process")
-		v.Subject, v.Key = s, stableKey(f, s, false)+"|unshrunk"
-		v.Observed = []string{f.Detail}
-		r.report(v)
-		return
-	}
-	maxTries, limit := 400, 40*time.Second
-	if r.tier == "thorough" {
-		maxTries, limit = 1500, 120*time.Second
-	}
-	if r.shrinkSpent > r.shrinkBudget {
-		maxTries, limit = 60, 8*time.Second
-		r.out.Count("shrink.over-budget")
-	}
-	min, kept, tries := r.minimise(s, f, maxTries, limit)
-	v.Subject, v.Kept, v.Tries, v.Shrunk = min, kept, tries, true
-	// confirm with the real toolchain
-	res := r.chk.run(min.raw(), true)
-	obs := res.TypeErrs
-	if res.Exit == 0 && len(res.ParseErrs) == 0 {
-		lines := r.chk.confirm([]string{res.Dir}, false)[res.Dir]
-		ff := judge(res.Exit, res.Stderr, res.ParseErrs, lines)
-		if ff.head() != f.head() {
-			r.out.Count("shrink.unconfirmed")
-			fmt.Printf("c01: minimal input of %s not confirmed by go build (%s): reporting the original\n", f.head(), ff.head())
-			v.Subject, v.Kept, v.Shrunk = s, nil, false
-		} else {
-			obs = lines
-			v.Finding = ff
-		}
+		r.count("shrink.not-reproduced-in-process")
 	} else {
-		v.Finding = judge(res.Exit, res.Stderr, res.ParseErrs, nil)
-		obs = append([]string{firstLine(strings.TrimSpace(res.Stderr))}, res.ParseErrs...)
-		if res.Exit != 0 {
-			obs = firstLines(res.Stderr, 6)
+		maxTries, limit := 400, 40*time.Second
+		if r.tier == "thorough" {
+			maxTries, limit = 1500, 120*time.Second
+		}
+		r.mu.Lock()
+		over := r.shrinkSpent > r.shrinkBudget
+		r.mu.Unlock()
+		if over {
+			maxTries, limit = 60, 8*time.Second
+			r.count("shrink.over-budget")
+		}
+		v.Subject, v.Kept, v.Tries = r.minimise(s, f, maxTries, limit)
+		v.Shrunk = true
+	}
+	v.Key = stableKey(v.Finding, v.Subject, len(v.Kept) > 0)
+	r.mu.Lock()
+	r.pending = append(r.pending, v)
+	if strings.Contains(v.Key, "|opt=") || strings.Contains(v.Key, "|backend=") {
+		r.explained[v.Head] = append(r.explained[v.Head], v)
+	}
+	r.mu.Unlock()
+}
+
+func (r *runner) count(k string) {
+	r.mu.Lock()
+	r.out.Count(k)
+	r.mu.Unlock()
+}
+
+// finalize re-establishes every queued verdict with the thriftgo BINARY and ONE `go build` over all minimal
+// inputs, computes the final keys and registers the violations (deduplicated by key).
+func (r *runner) finalize() {
+	type conf struct {
+		v   *violation
+		res *result
+	}
+	var cs []conf
+	var dirs []string
+	sort.SliceStable(r.pending, func(i, j int) bool { return r.pending[i].Origin < r.pending[j].Origin })
+	cs = make([]conf, len(r.pending))
+	var wg sync.WaitGroup
+	sem := make(chan struct{}, 8)
+	for i, v := range r.pending {
+		wg.Add(1)
+		go func(i int, v *violation) {
+			defer wg.Done()
+			sem <- struct{}{}
+			defer func() { <-sem }()
+			cs[i] = conf{v, r.chk.run(v.Subject.raw(), false)}
+		}(i, v)
+	}
+	wg.Wait()
+	for _, c := range cs {
+		if c.res.Exit == 0 && len(c.res.ParseErrs) == 0 {
+			dirs = append(dirs, c.res.Dir)
 		}
 	}
-	r.chk.cleanup(res)
+	built := r.chk.confirm(dirs, false)
+	var again []conf
+	for _, c := range cs {
+		ff := judge(c.res.Exit, c.res.Stderr, c.res.ParseErrs, built[c.res.Dir])
+		if ff.head() == c.v.Head {
+			c.v.Finding = ff
+			c.v.Observed = observedOf(c.res, built[c.res.Dir])
+			continue
+		}
+		// the minimal input is not confirmed by the toolchain: fall back to the original input
+		r.out.Count("shrink.unconfirmed")
+		fmt.Printf("c01: minimal input of %s not confirmed by the toolchain (%s): reporting the original input\n", c.v.Head, orStr(ff.head(), "ok"))
+		c.v.Subject, c.v.Kept, c.v.Shrunk = c.v.orig, nil, false
+		res := r.chk.run(c.v.Subject.raw(), false)
+		again = append(again, conf{c.v, res})
+	}
+	if len(again) > 0 {
+		var d2 []string
+		for _, c := range again {
+			if c.res.Exit == 0 && len(c.res.ParseErrs) == 0 {
+				d2 = append(d2, c.res.Dir)
+			}
+		}
+		b2 := r.chk.confirm(d2, false)
+		for _, c := range again {
+			ff := judge(c.res.Exit, c.res.Stderr, c.res.ParseErrs, b2[c.res.Dir])
+			if !ff.violation() {
+				// only the in-process check saw a problem: not a verdict of the toolchain, not reported
+				r.out.Count("finding.not-confirmed-at-all")
+				c.v.Key = ""
+				continue
+			}
+			c.v.Finding, c.v.Head = ff, ff.head()
+			c.v.Observed = observedOf(c.res, b2[c.res.Dir])
+		}
+	}
+	for _, v := range r.pending {
+		if v.Key == "" {
+			continue
+		}
+		v.Key = stableKey(v.Finding, v.Subject, len(v.Kept) > 0)
+		if !v.Shrunk {
+			v.Key += "|unshrunk"
+		}
+		if old, ok := r.byKey[v.Key]; ok {
+			if old.Known == "" && v.Known != "" {
+				old.Known = v.Known
+			} else if v.Known != "" && !strings.Contains(old.Known, v.Known) {
+				old.Known += "," + v.Known
+			}
+			r.out.Count("violation.duplicate-key")
+			continue
+		}
+		r.byKey[v.Key] = v
+		r.viols = append(r.viols, v)
+	}
+}
+
+func observedOf(res *result, build []string) []string {
+	var obs []string
+	switch {
+	case res.Exit != 0 || strings.Contains(res.Stderr, "Recovered from panic"):
+		obs = firstLines(res.Stderr, 8)
+	case len(res.ParseErrs) > 0:
+		obs = res.ParseErrs
+	default:
+		obs = build
+	}
 	if len(obs) > 6 {
 		obs = obs[:6]
 	}
-	v.Observed = obs
-	v.Key = stableKey(v.Finding, v.Subject, len(v.Kept) > 0)
-	if !v.Shrunk {
-		v.Key += "|unshrunk"
+	for i, o := range obs {
+		if len(o) > 400 {
+			obs[i] = o[:400]
+		}
 	}
-	r.report(v)
+	return obs
 }
 
 func firstLines(s string, n int) []string {
@@ -242,51 +334,84 @@ func run(repo, dir string, seed uint64, tier string, knownOnly bool, only string
 		fmt.Println("ERROR:", err)
 		return 2
 	}
-	chk, err := newChecker(filepath.Join(work, "chk"), repo, tg)
-	if err != nil {
-		fmt.Println("ERROR:", err)
-		return 2
+	out.Stats["timing_ms.thriftgo_build"] = int(time.Since(t0).Milliseconds())
+	// the export data of the runtime libraries (in-process type checker) is collected while the batch is built
+	type chkRes struct {
+		c   *checker
+		err error
 	}
-	r := &runner{repo: repo, work: work, seed: seed, tier: tier, out: out, chk: chk, byKey: map[string]*violation{}, explained: map[string][]*violation{}}
+	chkCh := make(chan chkRes, 1)
+	go func() {
+		c, err := newChecker(filepath.Join(work, "chk"), repo, tg)
+		chkCh <- chkRes{c, err}
+	}()
+	r := &runner{repo: repo, work: work, seed: seed, tier: tier, out: out, byKey: map[string]*violation{}, explained: map[string][]*violation{}}
 	r.shrinkBudget = 70 * time.Second
 	if tier == "thorough" {
 		r.shrinkBudget = 6 * time.Minute
 	}
-	out.Stats["timing_ms.setup"] = int(time.Since(t0).Milliseconds())
 
-	// ---------------- 1. dedicated known-defect stream
+	// ---------------- 1. generated programs: one shared batch, real toolchain
+	if !knownOnly {
+		t1 := time.Now()
+		if rc := r.mainStream(nprog); rc != 0 {
+			return rc
+		}
+		out.Stats["timing_ms.main_stream"] = int(time.Since(t1).Milliseconds())
+	}
+	cr := <-chkCh
+	if cr.err != nil {
+		fmt.Println("ERROR:", cr.err)
+		return 2
+	}
+	chk := cr.c
+	r.chk = chk
+	self, _ := os.Executable()
+	chk.startWorkers(self, 6)
+	defer chk.stopWorkers()
+
+	// ---------------- 2. dedicated known-defect stream (parallel: one shrink per unit)
 	t1 := time.Now()
+	var wg sync.WaitGroup
 	for _, k := range knownUnits() {
 		if only != "" && k.ID != only {
 			continue
 		}
-		f, res := r.eval(k.Subject)
-		chk.cleanup(res)
-		out.Count("known." + k.ID + "." + orStr(f.head(), "pass"))
-		switch {
-		case k.Expect == "other":
+		wg.Add(1)
+		go func(k knownUnit) {
+			defer wg.Done()
+			res := chk.runFast(k.Subject.raw())
+			f := judge(res.Exit, res.Stderr, res.ParseErrs, res.TypeErrs)
+			chk.cleanup(res)
+			r.count("known." + k.ID + "." + orStr(f.head(), "pass"))
 			if f.violation() {
 				r.handle(k.Subject, f, "known:"+k.ID, k.ID)
+			} else {
+				// a candidate that does not fail on this tree (fixed, or not a compile problem)
+				r.count("known.not-failing")
+				if k.Expect == "fail" {
+					fmt.Printf("c01: known unit %s does not fail on this tree (%s)\n", k.ID, orStr(f.head(), "ok"))
+				}
 			}
-		case f.violation():
-			r.handle(k.Subject, f, "known:"+k.ID, k.ID)
-		default:
-			// a candidate that no longer fails (fixed in the tree under test): nothing to report
-			out.Count("known.fixed-or-absent")
-			fmt.Printf("c01: known unit %s passes on this tree (%s)\n", k.ID, orStr(f.head(), "ok"))
-		}
+		}(k)
 	}
+	wg.Wait()
 	out.Stats["timing_ms.known"] = int(time.Since(t1).Milliseconds())
 
-	// ---------------- 2. generated programs
+	// ---------------- 3. failing units of the main stream, then the switch stream
 	if !knownOnly {
-		if rc := r.mainStream(nprog); rc != 0 {
-			return rc
+		t1 = time.Now()
+		for _, g := range r.groups {
+			r.handle(g.s, g.f, g.origin, "")
 		}
+		out.Stats["timing_ms.main_shrink"] = int(time.Since(t1).Milliseconds())
 		r.switchStream()
 	}
 
-	// ---------------- 3. report
+	// ---------------- 4. confirm with the real toolchain, report
+	t2 := time.Now()
+	r.finalize()
+	out.Stats["timing_ms.confirm"] = int(time.Since(t2).Milliseconds())
 	sort.Slice(r.viols, func(i, j int) bool { return r.viols[i].Key < r.viols[j].Key })
 	for _, v := range r.viols {
 		text := renderText(v.Subject.Prog)
@@ -302,6 +427,8 @@ func run(repo, dir string, seed uint64, tier string, knownOnly bool, only string
 		out.Sample(map[string]interface{}{"key": v.Key, "cmd": v.Subject.raw().cmdline(), "idl": text})
 	}
 	out.Stats["checker.runs"] = chk.Runs
+	out.Stats["checker.runs_in_process"] = chk.FastRuns
+	out.Stats["checker.worker_deaths"] = chk.stopWorkers()
 	out.Stats["timing_ms.shrink"] = int(r.shrinkSpent.Milliseconds())
 	out.Stats["timing_ms.total"] = int(time.Since(t0).Milliseconds())
 	fmt.Printf("c01: seed %d tier %s: %d distinct failing inputs, %d pipeline runs, %.1fs total (shrinking %.1fs)\n",
@@ -410,7 +537,7 @@ func (r *runner) mainStream(nprog int) int {
 	}
 	// every generated package, whether the driver imports it or not: ONE go build over the module
 	t0 := time.Now()
-	extra := goBuildAll(filepath.Join(b.Dir, "mod"))
+	extra := goBuildAll(filepath.Join(b.Dir, "mod"), len(b.Units))
 	out.Stats["timing_ms.go_build_all"] = int(time.Since(t0).Milliseconds())
 	// go vet on a rotating sample (quick) / everything (thorough)
 	t0 = time.Now()
@@ -485,31 +612,22 @@ func (r *runner) mainStream(nprog int) int {
 		g := groups[gk]
 		pu := plan[g.unit]
 		s := &subject{Prog: pu.prog, Backend: pu.backend, Options: pu.opts, Recurse: pu.recurse}
-		r.handle(s, g.f, fmt.Sprintf("main:%s:%s", b.Units[g.unit].Key, pu.tag), "")
+		r.groups = append(r.groups, failing{s, g.f, fmt.Sprintf("main:%s:%s", b.Units[g.unit].Key, pu.tag)})
 	}
 	return 0
 }
 
-// goBuildAll runs `go build ./...` in the batch module and attributes the output to units.
-func goBuildAll(mod string) map[string][]string {
-	c := &checker{root: filepath.Dir(mod)}
-	_ = c
-	out := map[string][]string{}
-	cmd := newGoCmd(mod, "build", "./...")
-	b, _ := cmd.CombinedOutput()
-	for _, ln := range strings.Split(string(b), "\n") {
-		ln = strings.TrimSpace(ln)
-		if ln == "" || strings.HasPrefix(ln, "#") {
-			continue
-		}
-		ln = strings.TrimPrefix(ln, "./")
-		if i := strings.IndexByte(ln, '/'); i > 0 && strings.HasPrefix(ln, "u") {
-			out[ln[:i]] = append(out[ln[:i]], ln)
-		} else {
-			out[""] = append(out[""], ln)
+// goBuildAll builds every generated package of the batch module (unit directories u0 … u<n-1>) with ONE go
+// command (more only if some package cannot be loaded) and attributes the output to units.
+func goBuildAll(mod string, n int) map[string][]string {
+	var dirs []string
+	for i := 0; i < n; i++ {
+		d := fmt.Sprintf("u%d", i)
+		if fi, err := os.Stat(filepath.Join(mod, d)); err == nil && fi.IsDir() {
+			dirs = append(dirs, d)
 		}
 	}
-	return out
+	return goBuild(mod, dirs, false)
 }
 
 // ---------------------------------------------------------------- switch stream (in-process, no batch)
@@ -543,7 +661,8 @@ func (r *runner) switchStream() {
 				be = "fastgo"
 			}
 			sub := &subject{Prog: p, Backend: be, Options: s.Opts, Recurse: true}
-			f, res := r.eval(sub)
+			res := r.chk.runFast(sub.raw())
+			f := judge(res.Exit, res.Stderr, res.ParseErrs, res.TypeErrs)
 			r.chk.cleanup(res)
 			r.out.Count("switch." + s.Name + "." + orStr(f.head(), "ok"))
 			if f.violation() && !found[f.head()] {
